@@ -15,6 +15,10 @@ let () = run_lines (fun toks ->
     let b i = (za_of_z a.(i) <> ZA.zero) in
     ignore n;
     (match op with
+     | "consts" ->
+       (* Rational::zero(0), one(1), mOne(-1); QField: one(1), mOne(-one), zero(0) *)
+       let w k = Model.mk_word (zs k) in
+       String.concat " " [pr (w "0"); pr (w "1"); pr (w "-1"); pr (w "0"); pr (w "1"); pr (Model.rneg (w "1"))]
      | "mk_neutral" -> pr (Model.mk_neutral (b 0))
      | "mk_int" -> pr (Model.mk_int a.(0))
      | "mk_word" -> pr (Model.mk_word a.(0))
